@@ -129,6 +129,11 @@ func (a *Affiliation) computeTriggersForCastingSites(pass *analysishelper.Enhanc
 						appendTypeToTypeTriggers(lhsType, rhsType)
 					}
 				case *ast.CallExpr:
+					// e.g., i := I(&S{}), an explicit conversion
+					if tv, ok := pass.TypesInfo.Types[node.Fun]; ok && tv.IsType() && len(node.Args) == 1 {
+						appendTypeToTypeTriggers(tv.Type, pass.TypesInfo.TypeOf(node.Args[0]))
+					}
+
 					// e.g., func foo(i I), foo(&S{})
 					if ident := asthelper.FuncIdentFromCallExpr(node); ident != nil {
 						if declObj := pass.TypesInfo.Uses[ident]; declObj != nil {
